@@ -32,6 +32,13 @@ REPLAYS = os.path.join(VERIF, "replays")
 FAILURES = os.path.join(VERIF, "failures")
 EVIDENCE = os.path.join(VERIF, "evidence")
 FINDINGS_FILE = os.path.join(VERIF, "known_findings.json")
+# Evidence under /verif/evidence only ever describes /repo itself: a run against a
+# patched scratch copy (VERIF_REPO, used for seeded changes) writes elsewhere.
+_TARGET = os.path.realpath(os.environ.get("VERIF_REPO") or "/repo")
+if _TARGET != os.path.realpath("/repo"):
+    _SCRATCH = os.path.join("/tmp", "vf-scratch", _TARGET.strip("/").replace("/", "_"))
+    FAILURES = os.path.join(_SCRATCH, "failures")
+    EVIDENCE = os.path.join(_SCRATCH, "evidence")
 NCPU = min(16, os.cpu_count() or 1)
 RECURSION_LIMIT = 3000
 
@@ -778,6 +785,7 @@ def run_property(mod, tier: str, seed: int, only: Optional[List[str]] = None, sc
             "subchecks": sub_reports,
             "known_findings_hit": dict(known_hits),
             "inconclusive": inconclusive,
+            "target": _TARGET,
         },
         "assumptions": list(getattr(mod, "ASSUMPTIONS", [])),
         "wall_s": round(time.time() - t0, 2),
